@@ -143,6 +143,8 @@ type Kernel struct {
 	Stats     map[string]int64
 	// SockOpHook is called at the start of every socket read/write/sendmsg/recvmsg (harness fault injection).
 	SockOpHook func(p *simrt.Proc, op string)
+	// MmapFault, if set, is asked before every mmap of a simulated process; true makes the call fail with ENOMEM.
+	MmapFault func(p *simrt.Proc) bool
 }
 
 // K is the kernel of the current run.
@@ -1146,6 +1148,11 @@ func (k *Kernel) keyOf(fd int) uint64 {
 
 func Mmap(fd int, offset int64, length int, prot int, flags int) ([]byte, error) {
 	simrt.Yield(simrt.KSyscall, "mmap")
+	if K != nil && K.MmapFault != nil && K.MmapFault(curProc()) {
+		// injected failure of the system call (address space / memory exhausted)
+		simrt.Count("fault.mmap_enomem", 1)
+		return nil, unix.ENOMEM
+	}
 	b, err := unix.Mmap(fd, offset, length, prot, flags)
 	if err != nil || K == nil {
 		return b, err
